@@ -233,7 +233,9 @@ def cli_case(case):
         res = (r1["report"] or {}).get("results", [])
         if res:
             d = res[0]["description"]
-            out["desc_notice"] = "could not be added" if ("unable" in d.lower() or "could not" in d.lower() or "manually" in d.lower()) else ("added" if "depend" in d.lower() else None)
+            # the two notices of codemodder/dependency.py (build_dependency_notification / build_failed_dependency_notification)
+            claims_added, says_failed = "automatically added this dependency" in d, "unable to automatically add" in d
+            out["desc_notice"] = "added" if claims_added else ("could not be added" if (says_failed or "could not" in d.lower() or "manually" in d.lower()) else None)
             out["report_manifest_changes"] = [cs["path"] for cs in res[0]["changeset"] if cs["path"] in kinds]
         for k in kinds:
             out["manifests"][k] = {"before": parse_reqs(k, before[k].decode("utf-8", "replace")), "after": parse_reqs(k, mid[k].decode("utf-8", "replace")),
@@ -270,6 +272,11 @@ def search(ctx):
     # a pyproject.toml that cannot take it (no dependency table) in front of manifests that can
     cases.append({"manifests": [("pyproject.toml", '[build-system]\nrequires = ["setuptools"]\n'), ("requirements.txt", "requests\n"), ("setup.cfg", "[options]\ninstall_requires =\n    requests\n")]})
     cases.append({"manifests": []})
+    # manifests that parse into a store but cannot be extended: nothing is written, and the report must not claim otherwise
+    cases.append({"manifests": [("setup.py", 'from setuptools import setup\n\nREQUIRES = ["requests"]\nsetup(name="x", install_requires=REQUIRES)\n')]})
+    cases.append({"manifests": [("pyproject.toml", '[project]\nname = "x"\nversion = "0.1"\ndynamic = ["dependencies"]\n')]})
+    cases.append({"manifests": [("pyproject.toml", '[project]\nname = "x"\nversion = "0.1"\ndynamic = ["dependencies"]\n'),
+                                ("setup.py", 'from setuptools import setup\n\nREQUIRES = ["requests"]\nsetup(name="x", install_requires=REQUIRES)\n')]})
     # a manifest the parser accepts (chardet) but that is not UTF-8: it cannot be updated and must be left alone
     cases.append({"manifests": [("requirements.txt", "requests\nflask\n".encode("utf-16"))], "expect_untouched": True})
     cases.append({"manifests": [("setup.cfg", "[options]\ninstall_requires =\n    requests>=2\n")]})
